@@ -136,8 +136,8 @@ def checksum (payload : Bytes) : Bytes := (Crypto.hash256 payload).take 4
     compared by the correspondence run validates it. -/
 def ChecksumLen : Prop := ∀ p : Bytes, (checksum p).length = 4
 
-/-- command NUL-padded to 12 bytes -/
-def commandField (c : Bytes) : Bytes := c ++ List.replicate (12 - c.length) 0
+/-- the 12-byte command field: the ASCII name followed by NUL bytes up to 12 -/
+def commandField (c : Bytes) : Bytes := (c ++ List.replicate 12 0).take 12
 
 /-- a complete message: 24-byte header and payload -/
 def frame (magic command payload : Bytes) : Bytes :=
@@ -198,6 +198,16 @@ def payload : Msg → Bytes
 /-- the bytes on the wire of message `m` under a chain's magic -/
 def frameMsg (magic : Bytes) (m : Msg) : Bytes := frame magic (command m) (payload m)
 
+/-- a stream of frames and, for each message, what remains of the stream once it has been read
+    (`tail` = whatever follows the last frame) -/
+def streamTrace (magic : Bytes) : List Msg → Bytes → List (Option Msg × Bytes)
+  | [], _ => []
+  | m :: ms, tail =>
+      (some (match m with
+             | .tx t => .tx (normTx t)
+             | .block b => .block { b with vtx := b.vtx.map normTx }
+             | m => m), (ms.map (frameMsg magic)).flatten ++ tail) :: streamTrace magic ms tail
+
 /-! ### field ranges ("field values the protocol version carries") -/
 
 /-- an address as the library constructs it: protocol version `PROTO_VERSION` (which carries the
@@ -218,13 +228,20 @@ def optWF {α} (P : α → Prop) : Option α → Prop
   | some x => P x
   | none => False
 
-/-- `version` with every field the protocol version carries: nVersion ≥ 70001 -/
+/-- `version` with exactly the fields its protocol version carries: `addr_from`, `nonce`, `user_agent`
+    from 106, `start_height` from 209, `relay` from 70001 (BIP37) — below 70001 the message carries no
+    relay flag and the receiver assumes `true` (1).  Version 10300 is excluded: the reference client
+    and the library read it as 300. -/
 def WFVersion (v : VersionMsg) : Prop :=
-  70001 ≤ v.nVersion ∧ v.nVersion < 2 ^ 31 ∧ v.nServices < 2 ^ 64 ∧
+  -(2 ^ 31 : Int) ≤ v.nVersion ∧ v.nVersion < 2 ^ 31 ∧ v.nVersion ≠ 10300 ∧ v.nServices < 2 ^ 64 ∧
   -(2 ^ 63 : Int) ≤ v.nTime ∧ v.nTime < 2 ^ 63 ∧ WFAddrNoTime v.addrTo ∧
-  optWF WFAddrNoTime v.addrFrom ∧ optWF (· < 2 ^ 64) v.nNonce ∧
-  optWF (fun s : Bytes => s.length ≤ maxSize) v.strSubVer ∧
-  optWF (fun h : Int => -(2 ^ 31 : Int) ≤ h ∧ h < 2 ^ 31) v.nStartingHeight ∧ v.fRelay < 256
+  (if v.nVersion ≥ 106 then
+     optWF WFAddrNoTime v.addrFrom ∧ optWF (· < 2 ^ 64) v.nNonce ∧
+     optWF (fun s : Bytes => s.length ≤ maxSize) v.strSubVer
+   else v.addrFrom = none ∧ v.nNonce = none ∧ v.strSubVer = none) ∧
+  (if v.nVersion ≥ 209 then optWF (fun h : Int => -(2 ^ 31 : Int) ≤ h ∧ h < 2 ^ 31) v.nStartingHeight
+   else v.nStartingHeight = none) ∧
+  (if v.nVersion ≥ 70001 then v.fRelay < 256 else v.fRelay = 1)
 
 /-- the payload-level well-formedness of each message type -/
 def WFMsg : Msg → Prop
@@ -268,6 +285,7 @@ instance decWFBlock18 : DecidablePred WFBlock := fun a => by unfold WFBlock; exa
 
 instance decWFMsg : DecidablePred WFMsg := fun m => by
   cases m <;> (unfold WFMsg; exact inferInstance)
+
 
 /-- what parsing yields: a transaction whose witness stacks are all empty comes back without
     witness entries (C01's `normTx`); every other field value is unchanged -/
